@@ -16,7 +16,8 @@ from . import er7mc
 
 EC = [124, 94, 38, 126, 92, 0]
 POOL = {
-    "ST": ["a", "a b", "x\\F\\y", "\\E\\", "O'Neil-1.5", "é", "\\X0D\\", "l1\\.br\\l2"], "TX": ["t x", "\\T\\"], "FT": ["f\\.br\\g", "h"],
+    "ST": ["a", "a b", "x\\F\\y", "\\E\\", "O'Neil-1.5", "é", "\\X0D\\", "l1\\.br\\l2", "APT #12", "#"], "TX": ["t x", "\\T\\", "n#2"],
+    "FT": ["f\\.br\\g", "h", "#1"],
     "ID": ["Y", "AB"], "IS": ["M", "X1"], "DT": ["20200229", "2020", "202012", "not a date"], "TM": ["1201", "120000.1234+0100", "2359"],
     "DTM": ["202001011200", "20200101120000.12-0500", "2020"], "NM": ["12.5", "0", "-3", "100", "0.0000001"], "SI": ["7", "0", "1234"],
     "GTS": ["g"], "SNM": ["s"], "WD": ["w"], "TN": ["(555)555-1234"], "varies": ["v", "v w"],
@@ -173,8 +174,12 @@ def _chunk(args):
                 lines.append(t)
         for t in lines:
             base = {"k": "rt", "v": v, "seg": seg, "ec": EC, "shape": shape, "open": open_ended, "fam": fam, "text": cps(t)}
+            # an element parsed on its own takes the default set of its version, which from 2.7 on has the truncation
+            # character #; inside the message (four-character MSH-2) there is none
+            base_alone = dict(base)
+            base_alone["ec"] = EC[:5] + [35] if v >= "2.7" else EC
             for api in ("segment", "message_fg", "message_nofg"):
-                e = dict(base)
+                e = dict(base_alone if api == "segment" else base)
                 e["api"] = api
                 try:
                     if api == "segment":
@@ -199,7 +204,7 @@ def _chunk(args):
                 ftext = parts[i].split("~")[0]
                 row = [r for r in rows if r["i"] == i]
                 if row:
-                    e = dict(base)
+                    e = dict(base_alone)
                     e["api"] = "field"
                     e["text"] = cps("%s%s%s" % (seg, "|" * i, ftext))
                     try:
@@ -216,7 +221,7 @@ def _chunk(args):
                         cidx = [j for j in range(len(cparts)) if cparts[j] and j < len(comps)]
                         if cidx:
                             j = rnd.choice(cidx)
-                            e = dict(base)
+                            e = dict(base_alone)
                             e["api"] = "component"
                             e["text"] = cps("%s%s%s%s" % (seg, "|" * i, "^" * j, cparts[j]))
                             try:
